@@ -5,7 +5,7 @@ Python code; core Lean only.  Strings are `List Char`.
 
 Python string primitives modelled here: `str.split(sep)` for the separators `"+"`, `","` (one
 character) and `"->"` (two different characters), `str.split()` (blank separated words),
-`str.strip()` (`stripBlank`, Model/Units), `int(text)` (`pyInt`, Model/Units), `str(int)`.
+`str.strip()` (`stripBlank`, Model/Units), `int(text)` (`pyInt`, Model/Units), `str(int)` (`showIntChars`).
 -/
 import Strengths.Model.Units
 import Strengths.Gen.Network
@@ -43,21 +43,8 @@ def pyWordsAux : List Char → List Char → List (List Char)
 
 def pyWords (s : List Char) : List (List Char) := pyWordsAux s []
 
-/-- decimal digit character -/
-def digitChar (d : Nat) : Char := "0123456789".toList.getD d '0'
-
-/-- digits of `n`, most significant first (`fuel > n` suffices) -/
-def natDigitsAux : Nat → Nat → List Char → List Char
-  | 0, _, acc => acc
-  | f + 1, n, acc =>
-    if n < 10 then digitChar n :: acc else natDigitsAux f (n / 10) (digitChar (n % 10) :: acc)
-
-def natDigits (n : Nat) : List Char := natDigitsAux (n + 1) n []
-
-/-- Python `str(int)` -/
-def pyStrInt : Int → List Char
-  | .ofNat n => natDigits n
-  | .negSucc n => '-' :: natDigits (n + 1)
+/-- Python `str(int)` (decimal text; `showIntChars` of Model/Units) -/
+def pyStrInt (n : Int) : List Char := showIntChars n
 
 /-! ### Reaction sides: insertion-ordered `dict` label ↦ coefficient -/
 
@@ -177,7 +164,7 @@ inductive KVal where
   deriving Repr, DecidableEq
 
 /-- `d[k] = v` on an insertion-ordered dict -/
-def dictSet {α} (d : List (String × α)) (k : String) (v : α) : List (String × α) :=
+def kDictSet {α} (d : List (String × α)) (k : String) (v : α) : List (String × α) :=
   if d.any (·.1 == k) then d.map (fun p => if p.1 == k then (k, v) else p) else d ++ [(k, v)]
 
 /-- the keys `ki.strip() for ki in k.split(",")` -/
@@ -189,10 +176,10 @@ def processDict (sys : Sys) (dim : Dim) : List (String × Scalar) → List (Stri
   | (k, s) :: r, out =>
     match processScalar sys dim s with
     | .error e => .error e
-    | .ok x => processDict sys dim r ((splitKeys k).foldl (fun o ki => dictSet o ki x) out)
+    | .ok x => processDict sys dim r ((splitKeys k).foldl (fun o ki => kDictSet o ki x) out)
 
 /-- `process_unitvar_input(v, sys, dim, accepts_singlevalue=True, accepts_dict=True, accepts_array=False)` -/
-def processUnitVar (sys : Sys) (dim : Dim) : KIn → Res KVal
+def processKInput (sys : Sys) (dim : Dim) : KIn → Res KVal
   | .scalar s =>
     match processScalar sys dim s with
     | .error e => .error e
@@ -214,9 +201,12 @@ structure Reaction where
   label : Option Label
   deriving Repr
 
-/-- `assert_string_is_a_valid_label` : blanks of `string.whitespace` and `+` are refused
+/-- `assert_string_is_a_valid_label` : the six blanks of `string.whitespace` (`isAsciiBlank`) and `+` are refused
 (the `c.count("->")` test on single characters can never fire) -/
-def labelOk (l : Label) : Bool := !(l.any fun c => isBlank c || c == '+')
+def isAsciiBlank (c : Char) : Bool :=
+  c == ' ' || c == '\t' || c == '\n' || c == '\r' || c == '\x0b' || c == '\x0c'
+
+def labelOk (l : Label) : Bool := !(l.any fun c => isAsciiBlank c || c == '+')
 
 def checkLabel : Option Label → Res Unit
   | none => .ok ()
@@ -227,10 +217,10 @@ def mkReactionSides (sys : Sys) (sub prod : Side) (kf kr : KIn) (label : Option 
   match checkLabel label with
   | .error e => .error e
   | .ok () =>
-    match processUnitVar sys (kDim sub.order) kf with
+    match processKInput sys (kDim sub.order) kf with
     | .error e => .error e
     | .ok f =>
-      match processUnitVar sys (kDim prod.order) kr with
+      match processKInput sys (kDim prod.order) kr with
       | .error e => .error e
       | .ok r => .ok ⟨sys, sub, prod, f, r, label⟩
 
@@ -258,7 +248,7 @@ def uvalDiv (a b : UVal) : UVal :=
   ⟨a.v * ((1 / b.v) * convFactor b.u.sys a.u.sys b.u.dim.neg), ⟨a.u.sys, a.u.dim.add b.u.dim.neg⟩⟩
 
 /-- `get_value_in_env(value, environment, default)` -/
-def valueInEnv (k : KVal) (env : String) (dflt : UVal) : UVal :=
+def kValueInEnv (k : KVal) (env : String) (dflt : UVal) : UVal :=
   match k with
   | .scalar x => x
   | .dict d =>
@@ -289,7 +279,7 @@ def Reaction.K (r : Reaction) : KConst :=
       | .scalar _ => kr.keys
     let keys := if keys0.contains "default" then keys0 else keys0 ++ ["default"]
     .dict (keys.map fun i =>
-      (i, ratioOrNone (valueInEnv kf i ⟨0, ⟨r.sys, kDim r.sub.order⟩⟩) (valueInEnv kr i ⟨0, ⟨r.sys, kDim r.prod.order⟩⟩)))
+      (i, ratioOrNone (kValueInEnv kf i ⟨0, ⟨r.sys, kDim r.sub.order⟩⟩) (kValueInEnv kr i ⟨0, ⟨r.sys, kDim r.prod.order⟩⟩)))
 
 /-! ### RDNetwork validity -/
 
